@@ -271,6 +271,7 @@ ROUTING_TIERS = {
     "thorough": (True, 16, (60, 8, 80), ["t-two-two-b0", "t-stream-two", "t-stream-stream-b1", "t-three-b0", "three-two-nocrash"]),
 }
 ROUTING_M3F = {"quick": (6, 6, 40), "thorough": (60, 8, 60)}
+ROUTING_TFREE = {"quick": {"C05": (4, False), "C18": (4, True)}, "thorough": {"C05": (40, False), "C18": (40, True)}}
 ROUTING_OWN = {"C05": "AtMostOneResponse ConfirmOnlyOneWay (Channel.tla); Deliver/Recv/Drop preconditions, QF stamps (Routing.tla)",
                "C18": "NoResidue (Channel.tla, Routing.tla): router tables empty and no per-call goroutine at quiescence"}
 
@@ -290,6 +291,9 @@ def check_routing(prop, tier, seed, replay):
                 t1 = os.path.join(work, "re.ndjson")
                 check_life.run_life("C18", t1, os.path.join(work, "re.json"), only=rp["scenario"])
                 bad, _, _ = check_life.validate_life(t1, work)
+            elif rp.get("scenario") == "m3t":
+                import check_chan
+                bad = check_chan.free_check(prop, work, rp.get("seed", seed), 6, bool(rp.get("faults")))[1]
             elif rp.get("scenario") == "m3":
                 bad = m3_replay(prop, rp, work, m3)
             else:
@@ -395,6 +399,18 @@ def check_routing(prop, tier, seed, replay):
             reported.append(path)
         allbad += len(b3) + len(bf)
         m3calls += fcalls
+        # small free workloads recorded with every event: each node's transport trace against Channel.tla,
+        # action by action (ChannelTrace.tla)
+        import check_chan
+        fruns, ffaults = ROUTING_TFREE[tier][prop]
+        facc, fconf, funconf, fstates, fev, tcalls = check_chan.free_check(prop, work, seed, fruns, ffaults)
+        tstates += fstates
+        for hdr, line, why, clines in fconf[:3]:
+            path = next_replay_path(prop)
+            json.dump({"property": prop, "scenario": "m3t", "chan": True, "faults": ffaults, "seed": seed, "line": line,
+                       "reason": why, "trace": clines[max(0, line - 40):line + 1]}, open(path, "w"), indent=1)
+            reported.append(path)
+        allbad += len(fconf)
         cov = {"states": states, "transitions": trans, "traces_validated_against_impl": total_exec - allbad + m3[0] + m3f[0],
                "evaluations": total_calls + m3calls, "distinct_nontrivial": nontriv,
                "rule": "programs = the C18 family of FifoGen.tla: every call variant (16 methods x send-waiting) x handler "
@@ -406,7 +422,9 @@ def check_routing(prop, tier, seed, replay):
                        (" and ordered pairs" if len3 else "", m3calls),
                "samples": samples, "exhaustive": not len3, "design_level": design, "programs": total_exec,
                "calls": total_calls, "m3_calls": m3calls, "trace_states": tstates, "decides": ROUTING_OWN[prop],
-               "lifecycle_scenarios": nscen}
+               "lifecycle_scenarios": nscen,
+               "transport_level_free_workloads": {"node_traces": facc, "events": fev, "calls": tcalls,
+                                                  "unconfirmed": funconf, "faults": ffaults}}
         write_evidence(prop, tier, seed, "model_checking", cov, time.time() - t0, allbad,
                        ["the router count is logged inside the router mutex; Route is logged before the hand-over to the "
                         "call's channel, so it always precedes the call's CallRecv",
